@@ -10,6 +10,8 @@
 //! delivered rows per flushed batch, in flush order, each once.
 //! Lane 3: random TopicFilter trees x batch metadata through the real
 //! TopicBroadcastChannel / FilteredReceiver vs reference topic semantics.
+//! Lane 5: topic-filtered subscriptions end to end - the batch metadata (tenant, shard, set of
+//! metric names) is the one the real ingester derives when it flushes, not one the harness made up.
 //! Lane 4 (transport): the same subscriptions made the way a client makes them - a
 //! WebSocket connection to /api/v1/stream of the real HTTP router on a loopback
 //! socket, {"query": ..., "live": true} - with sentinel batches (known to satisfy the
@@ -156,6 +158,8 @@ pub fn run(ctx: &Ctx) -> Outcome {
     lane2(ctx, &mut out, n2);
     let n4: u64 = if ctx.thorough { 14 * 120 } else { 48 };
     lane4(ctx, &mut out, n4);
+    let n5: u64 = if ctx.thorough { 14 * 3000 } else { 1600 };
+    lane5(ctx, &mut out, n5);
     clock::unfreeze_wall();
     out
 }
@@ -586,6 +590,98 @@ fn lane4(ctx: &Ctx, out: &mut Outcome, total: u64) {
                         &format!("C18/websocket/{}", cls),
                         &format!("WebSocket live tail for WHERE {}: delivered {:?}, expected per flushed batch {:?}", w, got, want),
                         json!({"lane": 4, "case_index": idx, "seed": ctx.seed, "where": w, "batches": batches.iter().map(|b| b.iter().map(|r| format!("{:?}", r)).collect::<Vec<_>>()).collect::<Vec<_>>()}),
+                    );
+                }
+            }
+        }
+    }
+}
+
+
+/// Lane 5: real ingester (flush on every write) -> subscribe_filtered(filter) -> recv. Each flushed
+/// batch carries 1-12 rows with up to three metric names; its topic metadata is what the ingester
+/// derives: its own tenant id, the shard id of the batch, the set of metric names in the batch.
+fn lane5(ctx: &Ctx, out: &mut Outcome, total: u64) {
+    for idx in ctx.my_cases(total) {
+        let mut rng = ctx.rng("C18-l5", idx);
+        let merge = clock::SIM_EPOCH_NS;
+        let nb = 2 + rng.usize(5);
+        let batches: Vec<Vec<Row>> = (0..nb).map(|b| gen_rows(&mut rng, merge, (b as u64 * 50) as i64 + 1)).collect();
+        // the metadata the ingester must derive
+        let mds: Vec<BatchMetadata> = batches
+            .iter()
+            .map(|rows| {
+                let key = cardinalsin::sharding::ShardKey::new(0, &rows[0].metric, rows[0].ts);
+                let mut metrics: Vec<String> = rows.iter().map(|r| r.metric.clone()).collect();
+                metrics.sort();
+                metrics.dedup();
+                BatchMetadata { shard_id: format!("shard-{:x}", u64::from_be_bytes(key.to_bytes()[0..8].try_into().unwrap_or([0u8; 8]))), tenant_id: 0, metrics }
+            })
+            .collect();
+        // a filter built from values that occur (and some that do not)
+        fn gen_f(rng: &mut Rng, mds: &[BatchMetadata], depth: u32) -> TopicFilter {
+            if depth > 0 && rng.chance(1, 3) {
+                let n = 1 + rng.usize(3);
+                let v: Vec<TopicFilter> = (0..n).map(|_| gen_f(rng, mds, depth - 1)).collect();
+                return if rng.chance(1, 2) { TopicFilter::And(v) } else { TopicFilter::Or(v) };
+            }
+            match rng.below(8) {
+                0 => TopicFilter::All,
+                1 => TopicFilter::Shard(mds[rng.usize(mds.len())].shard_id.clone()),
+                2 => TopicFilter::Shard("shard-0".into()),
+                3 => TopicFilter::Tenant(*rng.pick(&[0u32, 0, 1])),
+                _ => {
+                    let n = 1 + rng.usize(2);
+                    TopicFilter::Metrics((0..n).map(|_| ["cpu", "mem", "disk", "net"][rng.usize(4)].to_string()).collect())
+                }
+            }
+        }
+        let filter = gen_f(&mut rng, &mds, 2);
+        let expect: Vec<Vec<u64>> = batches.iter().zip(mds.iter()).filter(|(_, md)| topic_ref(&filter, md)).map(|(rows, _)| rows.iter().map(|r| r.id as u64).collect()).collect();
+        let (f2, b2) = (filter.clone(), batches.clone());
+        let rt = tokio::runtime::Builder::new_current_thread().enable_all().build().unwrap();
+        let res: Result<Vec<Vec<u64>>, String> = rt.block_on(async move {
+            clock::freeze_wall(merge);
+            let store = Arc::new(InMemory::new());
+            let meta = Arc::new(LocalMetadataClient::new());
+            let ing = Arc::new(Ingester::new(crate::checks::c03::no_wal_ingester_config(), store.clone(), meta.clone(), crate::checks::c01::storage_config(), MetricSchema::default_metrics()));
+            let mut rx = ing.subscribe_filtered(f2).await;
+            for rows in &b2 {
+                ing.write(make_batch(rows, false)).await.map_err(|e| format!("write: {e}"))?;
+            }
+            drop(ing); // closes the channel: recv ends with Closed after what is queued
+            let mut got = vec![];
+            loop {
+                match tokio::time::timeout(Duration::from_secs(60), rx.recv()).await {
+                    Ok(Ok(b)) => got.push(ids(&b)),
+                    Ok(Err(tokio::sync::broadcast::error::RecvError::Closed)) => break,
+                    Ok(Err(tokio::sync::broadcast::error::RecvError::Lagged(n))) => return Err(format!("setup: receiver lagged by {n}")),
+                    Err(_) => return Err("setup: the channel did not close within 60 s after the ingester was dropped".into()),
+                }
+            }
+            Ok(got)
+        });
+        out.eval();
+        out.count("lane5.subscriptions", 1);
+        match res {
+            Err(e) => {
+                out.count("lane5.setup_errors", 1);
+                out.note(&format!("lane5: {}", e.chars().take(160).collect::<String>()));
+            }
+            Ok(got) => {
+                out.count("lane5.batches_flushed", nb as u64);
+                out.count("lane5.batches_expected", expect.len() as u64);
+                if !expect.is_empty() && expect.len() < nb {
+                    out.nontrivial(hash_str(&format!("l5|{:?}|{}", filter, idx)));
+                }
+                if mds.iter().any(|m| m.metrics.len() > 1) {
+                    out.count("lane5.subscriptions_with_a_multi_metric_batch", 1);
+                }
+                if got != expect {
+                    out.violation(
+                        "C18/topic/end-to-end-delivery-differs-from-filter",
+                        &format!("topic filter {:?} on batches with metadata {:?}: delivered {:?}, expected {:?}", filter, mds.iter().map(|m| format!("{}|{}|{:?}", m.tenant_id, m.shard_id, m.metrics)).collect::<Vec<_>>(), got, expect),
+                        json!({"lane": 5, "case_index": idx, "seed": ctx.seed}),
                     );
                 }
             }
